@@ -10,6 +10,13 @@
 //   SY  id N nnz row_P[N+1] col_P[nnz] val_P[nnz]   symmetrizeMatrix                -> row_P[N+1] | col_P | val_P
 //   GE  id N D  P[N*N] Y[N*D]              computeExactGradient                     -> dC[N*D]
 //   GB  id N theta nnz row_P col_P val_P Y[N*2]     computeGradient (Barnes-Hut)    -> dC[N*2]
+//   GS  id N theta nnz row_P col_P val_P Y[N*2]     the same quantity from the PUBLIC QuadTree interface, one point
+//                                                   after the other in this (serial) driver: QuadTree(Y, N),
+//                                                   computeEdgeForces, computeNonEdgeForces(n) for n = 0..N-1 with one
+//                                                   running sum_Q, pos_f - neg_f / sum_Q                -> dC[N*2]
+//   every command may carry a thread count:  CMD@T  runs the call with omp_set_num_threads(T) (dynamic adjustment
+//   off); without it the OpenMP default of the process applies.  The library code of this slice has no parallel
+//   region: results must not depend on T.
 //   EE  id N D  P[N*N] Y[N*D]              evaluateError (dense)                    -> C
 //   VP  id N D k X[N*D]                    tsne::VpTree create + search of every sample for k results
 //                                          -> T <preorder dump: ( item thr L R ) / - for NULL> | per query: idx:dist ...
@@ -24,6 +31,7 @@
 #include <iostream>
 #include <sstream>
 #include <string>
+#include <omp.h>
 #include <unistd.h>
 #include <vector>
 
@@ -157,6 +165,8 @@ int main()
     signal(SIGALRM, on_alarm);
     setvbuf(stdout, nullptr, _IOFBF, 1 << 16);
     std::string line;
+    const int default_threads = omp_get_max_threads();
+    omp_set_dynamic(0);
     while (std::getline(std::cin, line))
     {
         if (line.empty())
@@ -164,6 +174,25 @@ int main()
         Toks tk(line);
         std::string cmd = tk.s();
         long id = tk.l();
+        {
+            int T = 0;
+            size_t at = cmd.find('@');
+            if (at != std::string::npos)
+            {
+                T = atoi(cmd.c_str() + at + 1);
+                cmd = cmd.substr(0, at);
+            }
+            omp_set_num_threads(T > 0 && T <= 256 ? T : default_threads);
+        }
+        {
+            // the VP-tree build draws its pivots from rand(): seed it from the case's own arguments, so that the same
+            // arguments give the same run wherever the line stands in the input (and under whatever thread count)
+            std::streamoff at = tk.ss.tellg();
+            unsigned h = 2166136261u;
+            for (size_t i = at > 0 ? (size_t)at : 0; i < line.size(); i++)
+                h = (h ^ (unsigned char)line[i]) * 16777619u;
+            srand(h);
+        }
         g_id = id;
         printf("C %ld\n", id);
         fflush(stdout);
@@ -292,11 +321,16 @@ int main()
                 printf("R %ld %a\n", id, C);
             }
         }
-        else if (cmd == "GB")
+        else if (cmd == "GB" || cmd == "GS")
         {
             int N = tk.l();
             double theta = tk.d();
             int nnz = tk.l();
+            if (!tk.ok || N < 0 || nnz < 0 || N > 1000000 || nnz > 10000000)
+            {
+                printf("R %ld BADCASE\n", id);
+                continue;
+            }
             std::vector<int> row_P(N + 1), col_P(nnz + 1);
             std::vector<double> val_P(nnz + 1), Y((size_t)N * 2), dC((size_t)N * 2 + 1, 0.0);
             for (int i = 0; i <= N; i++)
@@ -307,7 +341,22 @@ int main()
                 val_P[i] = tk.d();
             for (int i = 0; i < N * 2; i++)
                 Y[i] = tk.d();
-            T.computeGradient(nullptr, row_P.data(), col_P.data(), val_P.data(), Y.data(), N, 2, dC.data(), theta);
+            if (cmd == "GB")
+                T.computeGradient(nullptr, row_P.data(), col_P.data(), val_P.data(), Y.data(), N, 2, dC.data(), theta);
+            else
+            {
+                // point by point through the public interface of the quadtree (no OpenMP in this driver)
+                std::vector<double> neg((size_t)N * 2 + 1, 0.0);
+                double sum_Q = 0.0;
+                {
+                    tsne::QuadTree tree(Y.data(), N);
+                    tree.computeEdgeForces(row_P.data(), col_P.data(), val_P.data(), N, dC.data());
+                    for (int n = 0; n < N; n++)
+                        tree.computeNonEdgeForces(n, theta, neg.data() + (size_t)n * 2, &sum_Q);
+                }
+                for (int i = 0; i < N * 2; i++)
+                    dC[i] = dC[i] - (neg[i] / sum_Q);
+            }
             printf("R %ld", id);
             for (int i = 0; i < N * 2; i++)
                 pd(dC[i]);
